@@ -682,7 +682,9 @@ class Env:
         return self.ex.Variable('CHOICE')
 
     def loglike(self):
-        return self.ex.LogLogit(self.util(), self.av(), self.choice())
+        from biogeme.models import loglogit
+
+        return loglogit(self.util(), self.av(), self.choice())
 
     def nests_nl(self):
         from biogeme.nests import OneNestForNestedLogit, NestsForNestedLogit
@@ -1086,12 +1088,14 @@ def slot_list(T):
     return out
 
 
-def run_slot_call(T_by, R, s, recv_label, spec, seed):
+def run_slot_call(T_by, R, s, recv_label, spec, seed, mark=None, sides=('old', 'new')):
     """one (slot, receiver, argument spec): outcomes of the old name and of the designated replacement"""
     label, builder, post, variant = spec
     cls_entry = T_by[s['cls']]
     outs = {}
-    for side in ('old', 'new'):
+    for side in sides:
+        if mark:
+            mark(side)
         with core.scratch(TOML):
             env = Env()
             if s['is_module']:
@@ -1116,8 +1120,15 @@ def run_slot_call(T_by, R, s, recv_label, spec, seed):
     return outs
 
 
+def specs_for(s):
+    owner_q = s['owner'] if not s['is_module'] else s['cls'].replace('module:', '')
+    return arg_specs(owner_q if s['is_module'] else s['cls'] if is_expression_class(s['cls']) else s['owner'], s['want'], s['is_module'])
+
+
 def worker(payload):
-    """runs in a fresh interpreter: slots from payload['start'] on; stops as soon as the engine has raised"""
+    """runs in a fresh interpreter: slots from payload['start'] on.  Every finished slot and every call about to be made
+    is appended to payload['progress'], so that the parent knows where it was if the engine kills the process; the
+    worker stops by itself as soon as the engine has raised (stale exception kept by the engine)."""
     import warnings as w
 
     w.simplefilter('ignore')
@@ -1128,10 +1139,16 @@ def worker(payload):
     T_by = {c['name']: c for c in T['classes']}
     R = receivers()
     S = slot_list(T)
-    results = []
-    t0 = time.time()
+    prog = open(payload['progress'], 'a')
+
+    def emit(o):
+        prog.write(json.dumps(o, default=str) + '\n')
+        prog.flush()
+        os.fsync(prog.fileno())
+
+    skip_to = tuple(payload['skip_to']) if payload.get('skip_to') else None
+    only = payload.get('only')
     i = payload['start']
-    resume = payload.get('resume')  # (receiver idx, spec idx, side) to finish a call whose first half poisoned a previous worker
     while i < len(S):
         s = S[i]
         entry = {'i': i, 'calls': 0, 'both_raise': 0, 'mismatch': [], 'skipped': None}
@@ -1140,30 +1157,30 @@ def worker(payload):
         elif not s['is_module'] and not s['receivers']:
             entry['skipped'] = 'no instance: ' + NO_INSTANCE.get(s['cls'], 'NO FACTORY')
         else:
-            owner_q = s['owner'] if not s['is_module'] else s['cls'].replace('module:', '')
-            specs = arg_specs(owner_q if s['is_module'] else s['cls'] if is_expression_class(s['cls']) else s['owner'], s['want'], s['is_module'])
+            specs = specs_for(s)
             if not specs:
                 entry['skipped'] = 'NO ARGUMENT SPEC'
             for ri, rl in enumerate(s['receivers']):
                 for si, spec in enumerate(specs):
-                    if payload.get('skip_to') and (i, ri, si) < tuple(payload['skip_to']):
+                    if skip_to and (i, ri, si) < skip_to:
                         continue
-                    outs = run_slot_call(T_by, R, s, rl, spec, payload['seed'] + si)
+                    outs = run_slot_call(T_by, R, s, rl, spec, payload['seed'] + si, mark=lambda side: emit({'about': [i, ri, si, side]}))
                     if any(o.get('poisoned') for o in outs.values()):
-                        # the engine raised: this process is retired; the call is redone side by side in fresh processes
-                        results.append(entry)
-                        return {'results': results, 'next': i, 'poisoned_at': [i, ri, si], 'partial': True}
+                        emit({'entry': entry})
+                        emit({'poisoned_at': [i, ri, si]})
+                        return {'done': False}
                     entry['calls'] += 1
                     if 'exc' in outs['old'] and 'exc' in outs['new']:
                         entry['both_raise'] += 1
                     d = compare(outs['old'], outs['new'], s['old'], s['want'])
                     if d:
                         entry['mismatch'].append({'receiver': rl, 'spec': spec[0], 'diffs': [[k, _short(a), _short(b)] for k, a, b in d]})
-        results.append(entry)
+        emit({'entry': entry})
         i += 1
-        if time.time() - t0 > payload.get('budget', 1e9):
+        if only is not None:
             break
-    return {'results': results, 'next': i, 'poisoned_at': None}
+    emit({'finished': i})
+    return {'done': True}
 
 
 def isolated_single(payload):
@@ -1180,25 +1197,9 @@ def isolated_single(payload):
     S = slot_list(T)
     i, ri, si = payload['at']
     s = S[i]
-    owner_q = s['owner'] if not s['is_module'] else s['cls'].replace('module:', '')
-    specs = arg_specs(owner_q if s['is_module'] else s['cls'] if is_expression_class(s['cls']) else s['owner'], s['want'], s['is_module'])
-    spec = specs[si]
-    label, builder, post, variant = spec
-    side = payload['side']
-    cls_entry = T_by[s['cls']]
-    with core.scratch(TOML):
-        env = Env()
-        if s['is_module']:
-            recv = None
-            target = getattr(cls_entry['obj'], s['old'] if side == 'old' else s['want'])
-        else:
-            recv = dict(R[s['cls']])[s['receivers'][ri]](env)
-            if variant == 'prepared':
-                recv.prepare(env.db, 0)
-            target = getattr(recv, s['old']) if side == 'old' else (getattr(recv, s['want']) if s['want_kind'] == 'attr' else
-                                                                       getattr(sys.modules[cls_entry['obj'].__module__], s['want']))
-        args, kwargs = builder(env, recv)
-        return one_call(target, args, kwargs, recv, post, env, payload['seed'] + si)
+    spec = specs_for(s)[si]
+    outs = run_slot_call(T_by, R, s, s['receivers'][ri], spec, payload['seed'] + si, sides=(payload['side'],))
+    return outs[payload['side']]
 
 
 def _short(v):
@@ -1577,44 +1578,75 @@ def check_kw_model(ctx, res, n):
 # --------------------------------------------------------------------------- check
 
 
-def run_workers(ctx, res, T, seed, label=''):
+def run_side_isolated(at, side, seed):
+    out = core.run_isolated('props.c20', 'isolated_single', {'at': at, 'side': side, 'seed': seed}, timeout=600)
+    if '__error__' in out:
+        first = (out.get('stderr') or '').strip().splitlines()
+        return {'exc': 'process died ' + out['__error__'], 'exc_text': mask_text(' '.join(first[-2:]))[:160] if first else '', 'dep': [], 'other_warnings': [],
+                'state': None, 'args_after': None, 'died': True}
+    return out
+
+
+def run_workers(ctx, res, T, seed, only=None):
+    """all slots (or the slot `only`) in worker processes; returns (slot list, merged results per slot)"""
+    import tempfile
+
     S = slot_list(T)
     merged = {}
-    start, skip_to = 0, None
-    guard = 0
-    while start < len(S) and guard < 60:
-        guard += 1
-        out = core.run_isolated('props.c20', 'worker', {'start': start, 'seed': seed, 'skip_to': skip_to}, timeout=1500)
-        if '__error__' in out:
-            s = S[min(start, len(S) - 1)]
-            res.violate(f'the interpreter calling the alias slots died ({out["__error__"]}) at or after slot {start} ({s["cls"]}.{s["old"]})',
-                        {'slot': s, 'stderr': out.get('stderr', '')[-400:]}, out['__error__'], 'every slot can be called', where='alias slots: worker')
+
+    def merge(e):
+        m = merged.setdefault(e['i'], {'calls': 0, 'both_raise': 0, 'mismatch': [], 'skipped': None})
+        m['calls'] += e['calls']
+        m['both_raise'] += e['both_raise']
+        m['mismatch'] += e['mismatch']
+        m['skipped'] = m['skipped'] or e['skipped']
+
+    start, skip_to = (only if only is not None else 0), None
+    for _guard in range(80):
+        if start >= len(S):
             break
-        for e in out['results']:
-            m = merged.setdefault(e['i'], {'calls': 0, 'both_raise': 0, 'mismatch': [], 'skipped': None})
-            m['calls'] += e['calls']
-            m['both_raise'] += e['both_raise']
-            m['mismatch'] += e['mismatch']
-            m['skipped'] = m['skipped'] or e['skipped']
-        if out.get('poisoned_at'):
-            i, ri, si = out['poisoned_at']
-            res.tally('worker_retired_after_engine_error')
-            sides = {}
-            for side in ('old', 'new'):
-                sides[side] = core.run_isolated('props.c20', 'isolated_single', {'at': [i, ri, si], 'side': side, 'seed': seed}, timeout=600)
-            m = merged.setdefault(i, {'calls': 0, 'both_raise': 0, 'mismatch': [], 'skipped': None})
-            if any('__error__' in v for v in sides.values()):
-                m['mismatch'].append({'receiver': S[i]['receivers'][ri], 'spec': si, 'diffs': [['isolated call died', str(sides['old'])[:200], str(sides['new'])[:200]]]})
-            else:
-                m['calls'] += 1
-                if 'exc' in sides['old'] and 'exc' in sides['new']:
-                    m['both_raise'] += 1
-                d = compare(sides['old'], sides['new'], S[i]['old'], S[i]['want'])
-                if d:
-                    m['mismatch'].append({'receiver': S[i]['receivers'][ri], 'spec': si, 'diffs': [[k, _short(a), _short(b)] for k, a, b in d]})
-            start, skip_to = i, [i, ri, si + 1]
+        with tempfile.NamedTemporaryFile('w', suffix='.jsonl', delete=False) as tf:
+            prog = tf.name
+        out = core.run_isolated('props.c20', 'worker', {'start': start, 'seed': seed, 'skip_to': skip_to, 'progress': prog, 'only': only}, timeout=1500)
+        lines = [json.loads(l) for l in Path(prog).read_text().splitlines() if l.strip()]
+        os.unlink(prog)
+        about, finished, poisoned = None, None, None
+        for l in lines:
+            if 'entry' in l:
+                merge(l['entry'])
+                about = None
+            elif 'about' in l:
+                about = l['about']
+            elif 'finished' in l:
+                finished = l['finished']
+            elif 'poisoned_at' in l:
+                poisoned = l['poisoned_at']
+        if finished is not None:
+            break
+        if poisoned is None and about is None:
+            res.violate(f'the interpreter calling the alias slots died before any call ({out.get("__error__")})', {'stderr': out.get('stderr', '')[-400:]},
+                        out.get('__error__'), 'every slot can be called', where='alias slots: worker')
+            break
+        # the engine raised (worker retired) or killed the process during the call `at`: both sides are redone in fresh processes
+        at = poisoned if poisoned is not None else about[:3]
+        res.tally('worker_retired_after_engine_error' if poisoned is not None else 'worker_killed_by_the_engine')
+        i, ri, si = at
+        sides = {side: run_side_isolated(at, side, seed) for side in ('old', 'new')}
+        m = merged.setdefault(i, {'calls': 0, 'both_raise': 0, 'mismatch': [], 'skipped': None})
+        m['calls'] += 1
+        if 'exc' in sides['old'] and 'exc' in sides['new']:
+            m['both_raise'] += 1
+        if sides['old'].get('died') or sides['new'].get('died'):
+            if sides['old'].get('died') != sides['new'].get('died'):
+                m['mismatch'].append({'receiver': S[i]['receivers'][ri], 'spec': si, 'diffs': [['the engine kills the interpreter on one side only',
+                                                                                               _short(sides['old']), _short(sides['new'])]]})
         else:
-            start, skip_to = out['next'], None
+            d = compare(sides['old'], sides['new'], S[i]['old'], S[i]['want'])
+            if d:
+                m['mismatch'].append({'receiver': S[i]['receivers'][ri], 'spec': si, 'diffs': [[k, _short(a), _short(b)] for k, a, b in d]})
+        start, skip_to = i, [i, ri, si + 1]
+        if only is not None and False:
+            break
     return S, merged
 
 
@@ -1739,12 +1771,10 @@ def replay(ctx, obj):
         if idx is None:
             out.update({'property_fails': False, 'note': 'the slot does not exist any more'})
             return out
-        r = core.run_isolated('props.c20', 'worker', {'start': idx, 'seed': case.get('seed', obj.get('seed', 0)), 'budget': 0.0}, timeout=900)
-        entry = next((e for e in r.get('results', []) if e['i'] == idx), None)
-        fails = bool(entry and entry['mismatch']) or S[idx]['declared_new'] != S[idx]['want']
-        if r.get('poisoned_at'):
-            sides = {side: core.run_isolated('props.c20', 'isolated_single', {'at': r['poisoned_at'], 'side': side, 'seed': 0}) for side in ('old', 'new')}
-            fails = fails or bool(compare(sides['old'], sides['new'], S[idx]['old'], S[idx]['want']))
+        r2 = Result()
+        _, merged = run_workers(ctx, r2, T, case.get('seed', obj.get('seed', 0)), only=idx)
+        entry = merged.get(idx)
+        fails = bool(entry and entry['mismatch']) or S[idx]['declared_new'] != S[idx]['want'] or bool(r2.violations)
         out.update({'property_fails': fails, 'observed': entry})
     elif 'hierarchy' in case:
         r = Result()
